@@ -31,6 +31,8 @@ import Rooc.Proofs.LinMain
 import Rooc.Proofs.LinCounter
 import Rooc.Proofs.LinBridgeCounter
 import Rooc.Proofs.LinDExamples2
+import Rooc.Proofs.LinTolCounter
+import Rooc.Proofs.LinWire
 namespace Rooc.Props.C01
 open Rooc Rooc.Lin
 open Rooc.Lin.Gadget (B01 DomMax DomMin)
@@ -658,9 +660,13 @@ semantic contract on the source expressions.  Vocabulary (`Rooc/Proofs/LinD2.lea
 `LinD10.lean`, `LinD11.lean`, `LinBridgeLogic.lean`):
 * `GoodE d e` — the contract on a source expression `e` over the domains `d`: every variable is declared with a
   usage mark; every literal is finite (`finiteLits`, syntactic); and at EVERY ASSIGNMENT THAT SATISFIES `d`:
-  `e` is defined (`DefOn`), and the operands of every `and`/`or` node are 0/1-valued (`LOon` = C10's
-  `LogicOperands01`).  `operandsOK d e` is a decidable syntactic sufficient condition for the last clause
-  (every and/or operand is a logic value in the sense of the linearizer's own `is_logic_value`).
+  `e` is defined (`DefOn`), and NO and/or NODE COLLAPSES TO A NON-0/1 VALUE (`NCon`: for every and/or node `n`
+  of `e`, `simplify n` is 0/1-valued where defined).  The last clause is exactly what C10's singleton-collapse
+  finding violates; it is implied by `collapsesNonbinary (isBoolVar d) e = false` — the Lean port of the harness
+  flag `nary-singleton-nonbinary` (`harness/src/props/c01.rs::collapses_nonbinary`) — see `no_collapse_check`,
+  and by C10's stronger `LogicOperands01` on the domains (`LOon`, `noCollapse_of_logicOperands`), for which
+  `operandsOK d e` is a syntactic check.  `Exp.mayBeUndefined e = false` (the Rust guard) with finite literals is a
+  decidable sufficient condition for `DefOn` (`defined_check`).
 * `LogicModel m d` — objective and both sides of every constraint (comparison or bare assertion) are `GoodE d`.
   Every `FragModel` is a `LogicModel`.
 * `HasTruth e t ρ` — `e` evaluates to `1` (`t = true`) / `0` (`t = false`) at `ρ`;
@@ -713,8 +719,8 @@ comparisons of a logic value against a constant, bare assertions of nested formu
 `c01_partial` covers): for EVERY model that compiles and satisfies the contract, an assignment is
 source-feasible iff it extends, on the compiler's auxiliaries only, to a feasible point of the linear model.
 
-`_partial`: the excluded region is (i) models with an `and`/`or` operand that is not 0/1-valued on the domains
-(`c01_logic_counterexample`: C10's known finding), (ii) sides undefined at an assignment satisfying the domains
+`_partial`: the excluded region is (i) models with an and/or node that collapses to a non-0/1 value on the
+domains (`c01_logic_counterexample`: C10's known finding, flag `nary-singleton-nonbinary`), (ii) sides undefined at an assignment satisfying the domains
 (`c01_defined_counterexample`).  `DomRel`/`BoxEnforced` as in `c01_partial`; they are discharged for the whole
 pipeline in `c01_compile_logic_partial`. -/
 theorem c01_logic_partial {m : Model (Ext K)} {b : BoundsMap (Ext K)} {d : List (DomVar (Ext K))}
@@ -734,10 +740,45 @@ theorem c01_compile_logic_partial {m : Model (Ext K)} {t : K} (ht : 0 ≤ t) {ma
       ∃ ρ' : String → K, (∀ x, inScope m.domain x → ρ' x = ρ x) ∧ linFeasible lm ρ' = true :=
   compile_feasible_iff_logic ht h hm hsh hok ht1 ρ
 
-/-- a decidable sufficient condition for the and/or clause of the contract. -/
+/-- a decidable sufficient condition for C10's `LogicOperands01` on the domains. -/
 theorem logic_operands_check {d : List (DomVar (Ext K))} (hnd : (d.map (·.name)).Nodup) {e : Exp (Ext K)}
     (h : operandsOK d e = true) (hsc : ∀ y ∈ varsOf e, inScope d y) : LOon d e :=
   loOn_of_operandsOK hnd h hsc
+
+/-- `LogicOperands01` on the domains implies the and/or clause of the contract (it is the stronger condition). -/
+theorem noCollapse_of_logicOperands {d : List (DomVar (Ext K))} {e : Exp (Ext K)} (hlo : LOon d e)
+    (hd : DefOn d e) : NCon d e := NCon.ofLO hlo hd
+
+/-- **the and/or clause of the contract is the harness flag**: an expression that `collapsesNonbinary` (the port
+of `collapses_nonbinary` of `harness/src/props/c01.rs`, root cause flag `nary-singleton-nonbinary`) does not flag
+satisfies it. -/
+theorem no_collapse_check {d : List (DomVar (Ext K))} (hnd : (d.map (·.name)).Nodup) {e : Exp (Ext K)}
+    (hsc : ∀ x ∈ varsOf e, inScope d x) (h : collapsesNonbinary (isBoolVar d) e = false) : NCon d e :=
+  NCon.ofFlag hnd hsc h
+
+/-- a decidable sufficient condition for the definedness clause: finite literals and the Rust guard
+`may_be_undefined` answers `false` (every divisor is a non-zero literal, no empty `min`/`max`). -/
+theorem defined_check {d : List (DomVar (Ext K))} {e : Exp (Ext K)} (hf : finiteLits e = true)
+    (hu : Exp.mayBeUndefined e = false) : DefOn d e := by
+  intro ρ _
+  have := Rooc.Def_of_total ρ e hf hu
+  exact ⟨_, Rooc.eval_of_Def this⟩
+
+/-- **the contract from decidable checks only**: well-scoped, finite literals, not flagged
+`nary-singleton-nonbinary`, and `may_be_undefined = false` on every side. -/
+theorem logicModel_of_checks {m : Model (Ext K)} {d : List (DomVar (Ext K))} (hnd : (d.map (·.name)).Nodup)
+    (hobj : (∀ x ∈ varsOf m.objective, inScope d x) ∧ finiteLits m.objective = true ∧
+      collapsesNonbinary (isBoolVar d) m.objective = false ∧ Exp.mayBeUndefined m.objective = false)
+    (hcons : ∀ c ∈ m.constraints,
+      ((∀ x ∈ varsOf c.lhs, inScope d x) ∧ finiteLits c.lhs = true ∧
+        collapsesNonbinary (isBoolVar d) c.lhs = false ∧ Exp.mayBeUndefined c.lhs = false) ∧
+      ((∀ x ∈ varsOf c.rhs, inScope d x) ∧ finiteLits c.rhs = true ∧
+        collapsesNonbinary (isBoolVar d) c.rhs = false ∧ Exp.mayBeUndefined c.rhs = false)) :
+    LogicModel m d := by
+  have mk : ∀ e : Exp (Ext K), ((∀ x ∈ varsOf e, inScope d x) ∧ finiteLits e = true ∧
+      collapsesNonbinary (isBoolVar d) e = false ∧ Exp.mayBeUndefined e = false) → GoodE d e :=
+    fun e h => ⟨h.1, h.2.1, NCon.ofFlag hnd h.1 h.2.2.1, defined_check h.2.1 h.2.2.2⟩
+  exact ⟨mk _ hobj, fun c hc => ⟨mk _ (hcons c hc).1, mk _ (hcons c hc).2⟩⟩
 
 /-- the piecewise-linear fragment is a special case. -/
 theorem logicModel_of_fragModel {m : Model (Ext K)} {d : List (DomVar (Ext K))} (h : FragModel true m d) :
@@ -757,7 +798,7 @@ example (t : K) : ∃ (m : Model (Ext K)) (lm : LinModel (Ext K)),
   obtain ⟨lm, h⟩ := exOr_compile (K := K) (.fin t)
   exact ⟨exOr, lm, h, exOr_logicModel, exOr_assertShape, exOr_declOK, exOr_noInt⟩
 
-/-- **Counterexample for the excluded region** (the and/or clause `LOon` of the contract dropped — C10's known
+/-- **Counterexample for the excluded region** (the and/or clause `NCon` of the contract dropped — C10's known
 finding seen from C01): `min x s.t. c: (x and 1) = 3`, `x ∈ Real(0, 4)`.  `simplify` drops the operand `1`, what
 is left is the non-Boolean `x`, and the row is `x = 3`: the linear model has the feasible point `x = 3`, the
 source model has none (`x and 1` is 0 or 1).  Every other hypothesis of `c01_logic_partial` holds. -/
@@ -766,11 +807,37 @@ theorem c01_logic_counterexample :
       (ρ : String → K),
       linearizeWith m b d = .ok lm ∧ DomRel m d ∧ BoxEnforced b d ∧
       (∀ c ∈ m.constraints, (∀ y, (y ∈ varsOf c.lhs ∨ y ∈ varsOf c.rhs) → inScope d y) ∧ FinE c.lhs ∧ FinE c.rhs ∧
-        DefOn d c.lhs ∧ DefOn d c.rhs ∧ LOon d c.rhs) ∧
+        DefOn d c.lhs ∧ DefOn d c.rhs ∧ NCon d c.rhs) ∧
       GoodE d m.objective ∧
       linFeasible lm ρ = true ∧ ∀ ρ' : String → K, ¬ srcFeasible m ρ' = true :=
   lo_needed
 
 end StageD
+
+/-! ## which hypotheses of the pipeline theorems can be dropped -/
+
+section Hypotheses
+variable [FloorRing K]
+open Rooc.BoundsProofs
+
+/-- **`t < 1` is sharp** (for models with `IntegerRange` variables): for EVERY tolerance `t ≥ 1` and every step
+limit, `min x`, `x ∈ IntegerRange(0, 5)` compiles, every other hypothesis of `c01_compile_logic_partial` holds,
+the linear model accepts `x = 6` and the source model does not.  (`enforceable` rounds the box to
+`[⌈0 − t⌉, ⌊5 + t⌋] ⊇ [−1, 6]` and `apply_to_domain` publishes an even wider `IntegerRange`; the only shipped
+tolerance, `DEFAULT_TOLERANCE = 1e-9`, is far below the threshold.) -/
+theorem c01_tolerance_counterexample {t : K} (ht : 1 ≤ t) (maxSteps : Nat) :
+    ∃ (m : Model (Ext K)) (lm : LinModel (Ext K)) (ρ : String → K),
+      Compile.linearize m (.fin t) maxSteps = .ok lm ∧
+      LogicModel m m.domain ∧ AssertShape m ∧ DeclOK m.domain ∧
+      linFeasible lm ρ = true ∧ ¬ srcFeasible m ρ = true := by
+  obtain ⟨lm, ρ, h1, h2, h3⟩ := tolerance_ge_one_breaks (K := K) ht maxSteps
+  exact ⟨exI, lm, ρ, h1, exI_hyps.1, exI_hyps.2.1, exI_hyps.2.2, h2, h3⟩
+
+/-- **`AssertShape` is discharged for every model that comes over the wire** (`Model.dec`, the decoder the
+checker uses): a bare assertion is always stored as `lhs = 1`. -/
+theorem assertShape_of_wire [Wire (Ext K)] {s : Sexp} {m : Model (Ext K)} (h : Model.dec s = some m) :
+    AssertShape m := assertShape_of_dec h
+
+end Hypotheses
 
 end Rooc.Props.C01
